@@ -22,7 +22,7 @@ func init() {
 		Explain: "Decides, for every registered render function of the module (core and extensions) and every helper that receives the output writer, in the safe configuration: (S) every byte reaching the writer is a constant, an integer, renderer configuration, or has passed util.EscapeHTML/EscapeHTMLByte or html.Writer.Write/RawWrite — with two reviewed, separately checked exceptions (attribute names, code-flagged String nodes); (U) raw node bytes are written only under the Unsafe flag; (C) by a character-level HTML lexer run over the constant writes along every CFG path: inside a double-quoted attribute value only escaped/integer/config data or constants free of '<' and '\"' are written, inside a tag only constants/integers/attribute names, every render function starts and ends in text state; (V) the tag vocabulary is closed, the only comment is the placeholder, no bare '&'; (T) the escape table is exactly \" & < >; (E) the sanitisers examine every byte (their scanning loops step by exactly one) and the text writer emits only through the sanitiser; (N) attribute names produced by the parser are restricted to a safe alphabet (predicates evaluated for all 256 bytes). Does NOT decide proper nesting/closing of elements across different nodes of an arbitrary tree, nor XML well-formedness of character data.",
 		Trusted: []string{"bodies of util.EscapeHTML/EscapeHTMLByte and defaultWriter.RawWrite beyond the shape rules C03-E/T", "bufio.Writer"},
 		Assumes: []string{"renderer configuration (options, hook functions, typographer substitutions) is trusted", "user-supplied renderers/extensions out of scope"},
-		Rules:   []func(*World, *Report){ruleSinkDiscipline, ruleVocabulary, ruleEscapeTable, ruleSanitiserLoops, ruleResolvingWriter, ruleAttrNameProducers, ruleStringProducers, ruleOptionValueStored, ruleMembershipByBytes},
+		Rules:   []func(*World, *Report){ruleSinkDiscipline, ruleVocabulary, ruleEscapeTable, ruleSanitiserLoops, ruleResolvingWriter, ruleAttrNameProducers, ruleStringProducers, ruleOptionValueStored, ruleMembershipByBytes, ruleRewritersReturnBuffer},
 	})
 }
 
